@@ -132,7 +132,7 @@ def check(case, stats=None):
             # element-wise @streamable functions applied to a stream: the concatenated per-chunk outputs must equal the in-memory call
             from bionumpy.datatypes import StrandedInterval
             L = max(b for _, _, b in ents)
-            ref_text = "".join("ACGT"[(i * 5 + i // 3) % 4] for i in range(L + 2))
+            ref_text = "".join("ACGT"[((i * 2654435761) >> 7) % 4] for i in range(L + 2))     # fixed scrambled reference
             ref = bnp.as_encoded_array(ref_text, bnp.DNAEncoding)
             strands = ["+-"[((a * 7 + b * 3 + i) // 2 + case.get("strand_salt", 0)) % 2] for i, (c, a, b) in enumerate(ents)]
             st_tab = StrandedInterval([names[c] for c, a, b in ents], np.array([a for c, a, b in ents], dtype=int),
